@@ -185,19 +185,7 @@ pub struct Interp<'t> {
     pub failed_calls: u64,
 }
 
-pub fn pat(id: u32, i: usize) -> u8 {
-    ((id as usize).wrapping_mul(167).wrapping_add(i.wrapping_mul(13)) % 251) as u8 + 1
-}
-
-pub fn fill(ptr: *mut u8, id: u32, from: usize, to: usize) {
-    for i in from..to {
-        unsafe { ptr.add(i).write(pat(id, i)) };
-    }
-}
-
-pub fn first_mismatch(ptr: *const u8, id: u32, from: usize, to: usize) -> Option<usize> {
-    (from..to).find(|&i| unsafe { ptr.add(i).read() } != pat(id, i))
-}
+pub use sim::pattern::{fill, first_mismatch, pat};
 
 impl<'t> Interp<'t> {
     pub fn new(trace: &'t Trace, stats: &'t mut Stats) -> Self {
